@@ -1064,6 +1064,14 @@ fn oracles(run: &mut Run, nops: usize) {
         if !all_acked || failed || dup {
             run.r.nontrivial = true;
         }
+        // A worker answering under ANOTHER worker's id is not one of the
+        // behaviours the property quantifies over (the main process does not
+        // check the sender of an id): such requests are compared with the
+        // model only, the verdict oracles do not apply to them.
+        let impersonated = before.iter().any(|a| a.0 != a.1);
+        if impersonated {
+            run.r.tags.push("answer-under-another-workers-id".into());
+        }
         // ---- exactly one final answer ----
         if nfinals == 0 {
             let expired = q.age > T_UNITS;
@@ -1085,7 +1093,7 @@ fn oracles(run: &mut Run, nops: usize) {
         // (a second final answer is reported where it is received)
         // ---- verdict ----
         if let Some((code, at)) = q.finals.first().copied() {
-            if code == 'O' && q.verb.gathers() {
+            if code == 'O' && q.verb.gathers() && !impersonated {
                 if failed && q.verb.is_mutating() {
                     run.r.oracle.push(("ok-despite-worker-failure".into(), format!("request {qi} ({:?}): Ok at op {at} although a worker answered Failure before", q.verb)));
                 } else if !all_acked || failed {
@@ -1127,18 +1135,22 @@ fn s(v: &[&str]) -> Vec<String> {
     v.iter().map(|x| x.to_string()).collect()
 }
 
-/// fixed witnesses / regression cases (run first)
+/// fixed witnesses / regression cases (run first). The witnesses of the four
+/// repaired defects (F17 silent worker, F17b closed worker, F35 duplicate
+/// answer, F21 unanswered requests) stay here: on the repaired code they end
+/// as failures / are answered, and their oracle classes would fire again if a
+/// repair were reverted.
 fn corpus_cases() -> Vec<Vec<String>> {
     vec![
         // all good
         s(&["new 2 10", "req 0 add", "ans 0 0 0 0 ok", "ans 1 1 0 0 ok", "req 1 list"]),
-        // F17: a silent worker, the deadline passes
+        // F17 (repaired): a silent worker, the deadline passes
         s(&["new 2 10", "req 0 add", "ans 0 0 0 0 ok", "adv 12"]),
-        // a worker closes its channel
+        // F17b (repaired): a worker closes its channel
         s(&["new 2 10", "req 0 add", "ans 0 0 0 0 ok", "close 1", "adv 12"]),
-        // a duplicate answer finishes the task early
+        // F35 (repaired): a duplicate answer must not finish the task early
         s(&["new 2 10", "req 0 add", "ans 0 0 0 0 ok", "ans 0 0 0 0 ok", "adv 12"]),
-        // F21
+        // F21 (repaired): requests the main process does not implement are answered
         s(&["new 1 10", "req 0 none", "req 1 launch", "req 2 retsock", "adv 12"]),
         // failure is reported; late answer is dropped
         s(&["new 2 10", "req 0 add", "ans 1 1 0 0 fail", "ans 0 0 0 0 proc", "ans 0 0 0 0 ok", "ans 0 0 0 0 ok"]),
@@ -1150,6 +1162,12 @@ fn corpus_cases() -> Vec<Vec<String>> {
         s(&["new 2 10", "req 0 load 2", "ans 0 0 0 1 ok", "ans 0 0 0 2 ok", "ans 1 1 0 1 ok", "adv 12", "ans 1 1 0 2 ok"]),
         // hard stop while another request is pending
         s(&["new 2 10", "req 0 add", "req 1 hardstop", "ans 0 0 1 0 ok", "ans 1 1 1 0 ok", "req 2 list"]),
+        // regression: hard stop with a silent worker gets exactly one (failure) answer
+        s(&["new 2 10", "req 0 hardstop", "ans 0 0 0 0 ok", "adv 12"]),
+        // regression: answer under another worker's id, then that worker's own failure
+        s(&["new 2 10", "req 0 add", "ans 0 1 0 0 ok", "ans 1 1 0 0 fail", "ans 0 0 0 0 ok", "adv 12"]),
+        // regression: load state acknowledged twice by one worker, never by the other
+        s(&["new 2 10", "req 0 load 1", "ans 0 0 0 1 ok", "ans 0 0 0 1 ok", "adv 12"]),
         // one poll batch: Ok from worker 0 and Failure from worker 1 together
         s(&["new 2 10", "req 0 add", "hold", "ans 0 0 0 0 ok", "ans 0 0 0 0 ok", "ans 1 1 0 0 fail", "release"]),
     ]
